@@ -40,7 +40,10 @@ The model follows the code of `/repo/reactive_stores` **as it is**, defects incl
                                    `ReactiveNode for RwLock<SubscriberSet>`), `Effect` (woken flag, polled by the
                                    controlled executor in spawn order) and `ImmediateEffect` (runs inside `notify`),
                                    `KeyMap::with_field_keys` (lazy `FieldKeys::new(latest_keys())`),
-                                   `KeyedSubfieldWriteGuard::drop` (`update_keys` then `notify`).
+                                   `KeyedSubfieldWriteGuard::drop` (notify, `update_keys`, notify again).
+* `logicalGet`, `related`, `diffVal` — the *specification* side (no Rust counterpart): the value a reader of a chain
+                                   ought to see (keyed items found by key, not by stored index), the prefix relation on
+                                   chains, the fields that differ between two values.  Used by the driver's oracle only.
 -/
 namespace Leptos.Store
 
@@ -575,7 +578,7 @@ def diffList : Tag → List Val → List Val → Chain → Nat → List Chain
     (match t with
      | .kvec => if x.keyOf = y.keyOf then diffVal x y (c ++ [.key x.keyOf]) else [c]
      | .vec => diffVal x y (c ++ [.idx i])
-     | _ => diffVal x y (c ++ [.fld i])) ++ diffList t xs ys c (i + 1)
+     | _ => diffVal x y (c ++ [if x.tag? = some .kvec then .kfld i else .fld i])) ++ diffList t xs ys c (i + 1)
   | _, [], _, _, _ => []
   | _, _ :: _, [], _, _ => []
 end
